@@ -43,7 +43,30 @@ def run_op(p, e, op, stash=None, meta=True, shared=None):
     kind = op[0]
     try:
         if kind == 'parse':
-            return {'ok': canon(p.parse(W.as_input(e, op[1]), start=op[2]), meta)}
+            r = p.parse(W.as_input(e, op[1]), start=op[2])
+            c = canon(r, meta)
+            if stash is not None and len(stash.setdefault('raw', [])) < 6:
+                stash['raw'].append((r, c, op))         # re-examined after all later operations: a returned tree must not change
+            return {'ok': c}
+        if kind == 'parse_keep':
+            # a failed parse whose exception (with its live interactive_parser) is kept and resumed after later operations
+            try:
+                return {'ok': canon(p.parse(W.as_input(e, op[1]), start=op[2]), meta)}
+            except UnexpectedInput as ex:
+                stash['kept'] = ex
+                return {'kept': canon_error(ex)}
+        if kind == 'resume_kept':
+            ex = stash.pop('kept', None) if stash else None
+            if ex is None:
+                return {'nothing': True}
+            first = canon_error(ex)
+            ip = getattr(ex, 'interactive_parser', None)
+            if ip is None:
+                return {'first': first}
+            try:
+                return {'first': first, 'ok': canon(ip.resume_parse(), meta)}
+            except LarkError as ex2:
+                return {'first': first, 'then': canon_error(ex2)}
         if kind == 'parse_as':
             # the same instance fed another input type than usual (str / TextSlice over a padded buffer)
             if op[3] == 'slice':
@@ -167,4 +190,6 @@ def eager_form(op):
         return ['lex', op[1], None]
     if op[0] == 'scan_late':
         return ['scan', op[1], op[2], None]
+    if op[0] == 'parse_keep':
+        return ['resume_stored', op[1], op[2]]
     return op
